@@ -1,7 +1,7 @@
 """C09 - Cardinalities: normal form, exact violation reports, never enforced, persisted."""
 
 LEVEL = 'proof'
-CONTRACT_MODULES = ['contracts.c_util', 'contracts.c_parsers']
+CONTRACT_MODULES = ['contracts.c_util', 'contracts.c_parsers', 'contracts.c_validation']
 EXPLANATION = ('Sidecar contracts on the real cardinality functions; obligations generated from the current '
                'source by symbolic execution and discharged by cvc5/z3 for all inputs.')
 DEDUCTIVE = [
@@ -9,10 +9,17 @@ DEDUCTIVE = [
     'odml/tools/xmlparser.py::parse_cardinality',
     'odml/tools/dict_parser.py::parse_cardinality',
     'odml/tools/dict_parser.py::parse_cardinality#roundtrip',
+    {'fid': 'odml/validation.py::section_properties_cardinality', 'mode': 'heap'},
+    {'fid': 'odml/validation.py::section_sections_cardinality', 'mode': 'heap'},
+    {'fid': 'odml/validation.py::property_values_cardinality', 'mode': 'heap'},
+    {'fid': 'odml/section.py::BaseSection.sec_cardinality.setter', 'mode': 'heap'},
+    {'fid': 'odml/section.py::BaseSection.prop_cardinality.setter', 'mode': 'heap'},
+    {'fid': 'odml/property.py::BaseProperty.val_cardinality.setter', 'mode': 'heap'},
 ]
 # contracts whose VCs the solvers leave undecided (string theory); bounded stand-in only
 BOUNDED_ONLY = ['odml/tools/xmlparser.py::parse_cardinality#roundtrip']
-TRUSTED = []
+TRUSTED = ['_sections/_properties/_values_cardinality_validation: assumed contract (no raise, no write to odML objects)']
+TIMEOUT_S = 20
 
 
 def bounded_jobs(tier, seed):
@@ -25,4 +32,6 @@ def bounded_jobs(tier, seed):
         pure('odml/tools/xmlparser.py::parse_cardinality#roundtrip', 'contracts.c_parsers', 'gen_xml_card_roundtrip'),
         pure('odml/tools/dict_parser.py::parse_cardinality', 'contracts.c_parsers', 'gen_dict_card'),
         pure('odml/tools/dict_parser.py::parse_cardinality#roundtrip', 'contracts.c_parsers', 'gen_dict_card_roundtrip'),
+        {'name': 'b_values.run_cardinality', 'module': 'rcc.b_values', 'func': 'run_cardinality',
+         'kwargs': {'tier': tier, 'seed': seed}},
     ]
